@@ -60,7 +60,7 @@ func livesimFuncs(p *Program) []*ssa.Function {
 }
 
 func checkC04(p *Program, r *Reporter) {
-	unitsRuleByName(p, r, "cfgFromRequest", "findSegMetaFromNr", "findSegMetaFromTime", "findRefSegMetaFromTime", "calcSegmentAvailabilityTime")
+	unitsRuleByName(p, r, "cfgFromRequest", "writeSegment", "findSegMetaFromNr", "findSegMetaFromTime", "findRefSegMetaFromTime", "calcSegmentAvailabilityTime")
 	r.Explanation = "Static analysis of structural necessary conditions of C04: (a) E5 sentinel propagation: every error that may carry not-found / too-early / gone is returned on all non-nil paths of every error-returning function " +
 		"between the segment lookup and the HTTP handler, wrapped only with %w, and the handler's errors.Is/As branches answer 404 / 425 / 410; (b) E4: every call of the availability test receives an availability time that depends on the start time, " +
 		"a window that depends on tsbd, an offset that depends on ato and a 'now' that depends on the request's nowMS, and the too-early error carries a remaining time that depends on ato; " +
@@ -120,13 +120,14 @@ func checkC04(p *Program, r *Reporter) {
 	r.Rule("E3-Bx", "", 0)
 	e.classB("E3-B", wrapFns)
 	belowStartRule(p, r, wrapFns)
+	exactEarlyRule(p, r)
 	if h := p.mustFunc(r, pkgApp, "(*Server).livesimHandlerFunc"); h != nil {
 		startGuardRule(p, r, h, "writeSegment", "writeInitSegment")
 	}
 }
 
 func checkC02(p *Program, r *Reporter) {
-	unitsRuleByName(p, r, "LiveMPD", "cfgFromRequest", "findSegMetaFromNr", "findSegMetaFromTime", "findRefSegMetaFromTime")
+	unitsRuleByName(p, r, "LiveMPD", "cfgFromRequest", "writeSegment", "findSegMetaFromNr", "findSegMetaFromTime", "findRefSegMetaFromTime")
 	r.Explanation = "Static analysis of two agreement clauses of C02 by dependence slices (E4): (a) the availability instant used by the segment server depends on availabilityStartTime, timeShiftBufferDepth, availabilityTimeOffset and the request's now " +
 		"at every call site of the availability test, i.e. in every addressing mode the MPD can advertise; (b) the segment-number -> segment mapping of the server depends on the configured start number, and so does every startNumber the MPD generator stores " +
 		"(reported as a known finding where it does not). Decides these structural clauses; numeric equality of times, durations and numbers, contiguity and window edges are not decided."
@@ -189,6 +190,7 @@ func checkC02(p *Program, r *Reporter) {
 	// (e) "no segment yet" sentinels
 	sentinelGuards(p, r)
 	sentinelGuardShape(p, r)
+	offsetAlwaysRule(p, r)
 	searchConvention(p, r)
 }
 
